@@ -84,6 +84,26 @@ def build(rng, tier):
         hist = engcheck.std_history(inst, "aempty", inp)
         if j % 3 == 1: hist = [o.replace("eng run ", "eng runp ") for o in hist]
         cases.append(engcheck.Case("aempty", inst, hist, {"inp": inp, "kind": "agg-over-empty-relation"}))
+    # forced shape "every column bound": negation / count / sum over a PURE INPUT relation (in no head, no fact) with ALL its columns bound, in a program where no positive clause
+    # looks that relation up with all columns bound - the aggregation is the only reader of the relation's FULL index, which update_indices must fill from the rows all the same
+    af = {"rels": [{"arity": 1}, {"arity": 1}, {"arity": 2}, {"arity": 2}, {"arity": 1}, {"arity": 3}],
+          "rules": [{"heads": [(4, [("var", 0)])], "body": [("cl", 0, [("v", 0)], []), ("agg", [], "not", [], 1, [("k", ("var", 0))])]},
+                    {"heads": [(5, [("var", 0), ("var", 1), ("var", 21)])], "body": [("cl", 2, [("v", 0), ("v", 1)], []), ("agg", [21], "count", [], 3, [("k", ("var", 0)), ("k", ("var", 1))])]}]}
+    for pid, macro in (("afull", "ascent"), ("afullp", "ascent_par")):
+        progs[pid] = af
+        mods.append((pid, eng.rs_module(pid, af, macro=macro)))
+        for j in range(5 if tier == "quick" else 16):
+            r5 = rng.fork(f"afull{j}")
+            users = [(x,) for x in range(r5.range(2, 6))]
+            banned = [(x,) for x, in users if r5.chance(1, 2)] or [users[0]]
+            req = list(dict.fromkeys((r5.below(5), r5.below(4)) for _ in range(r5.range(2, 6))))
+            grant = [t for t in req if r5.chance(1, 2)] + [(7, 7)]
+            inp = {0: users, 1: banned, 2: req, 3: list(dict.fromkeys(grant))}
+            inst = f"{pid}_{j}"
+            hist = engcheck.std_history(inst, pid, inp)
+            if macro == "ascent_par": hist[0] += f" par {r5.choice([1, 2, 4])}"
+            elif j % 3 == 1: hist = [o.replace("eng run ", "eng runp ") for o in hist]
+            cases.append(engcheck.Case(pid, inst, hist, {"inp": inp, "kind": "agg-all-columns-bound-over-input" + ("-par" if macro == "ascent_par" else "")}))
     # aggregation over LATTICE relations through a non-unique index (strict subset of the key columns bound): one row per key, also after
     # rows were improved in place (serial mode; the theorems do not cover lattices + aggregation: tie only)
     lat_list = engcheck.make_programs(rng.fork("c04lat"), 8 if tier == "quick" else 40, genf=gen.gen_agg_lat_program,
